@@ -686,7 +686,7 @@ def run_dtype_vector(vec, tid: str, prop: str, variant: int = 0) -> dict:
 
 def key_vectors(dump_path: str):
     out, _ = vectors(dump_path)
-    out = [v for v in out if v["kind"] == "exp"]
+    out = [v for v in out if v["kind"] in ("exp", "pair")]
     return out, {"vectors": len(out)}
 
 
@@ -694,8 +694,21 @@ def run_key_vector(vec, tid: str, prop: str, variant: int = 0) -> dict:
     from .project import num
     reset_options()
     rec = Recorder(tid, prop)
-    e = vec["e"]
     coef = (1, -2, 3)[variant % 3]
+    if vec["kind"] == "pair":
+        # (c * q0**a) * (d * q0**b) is c*d * q0**(a+b), in both orders and through the three spellings
+        a, b = (vec["a"], vec["b"]) if variant % 2 else (vec["b"], vec["a"])
+        names = [0] if (variant // 2) % 2 else [0, 1]
+        def mono(e, c):
+            rows = [[e] + [0] * (len(names) - 1)] if (variant // 4) % 2 == 0 else [[e] + [1] * (len(names) - 1)]
+            return rec.do("from_attributes", [], rows=rows, coefs=[[num(c)]], shape=[], names=names, rc="none", rn="true",
+                          via="function", dtype=("int64", "float64")[(variant // 8) % 2], bigexp=e)
+        x, y = mono(a, coef), mono(b, (2, -1, 5)[variant % 3])
+        if x and y:
+            rec.do("arith", [x[0], y[0]], keep=False, op="mul", spelling=("operator", "numpy", "numpoly")[variant % 3], bigexp=a + b)
+        rec.meta["source"] = "MC_Keys"
+        return rec.to_json()
+    e = vec["e"]
     r = rec.do("from_attributes", [], rows=[[e]], coefs=[[num(coef)]], shape=[], names=[0], rc="none", rn="true",
                via="function", dtype="int64", bigexp=e)
     if r:
